@@ -50,6 +50,7 @@ def check_value(fcp: Any, s: Any, name: str, v: Dict[str, Any], known: Any = (),
         dec = serde.decode(fcp, name, bytearray(enc))
     except Exception as e:
         return f"decode(encode(v)) raised {type(e).__name__}: {e} (encoded {bytes(enc).hex()})"
+    v = CC.float_norm(s, CC.M.StructRef(name), v)
     if not refcodec.same_value(dec, v):
         if "PY-SIGNED-MIN" in known and CC.matches_signed_min_finding(s, name, v, dec):
             if rec is not None:
